@@ -22,8 +22,9 @@ class _Cipher:
         return n
 
     def enc(self, pt):
-        if len(pt) + TAG > MAXMSG:
-            raise ValueError("Noise message too long: %d" % (len(pt) + TAG))
+        # as noiseprotocol's NoiseConnection.encrypt: only the *plaintext* is checked against MAX_MESSAGE_LEN
+        if not isinstance(pt, bytes) or len(pt) > MAXMSG:
+            raise NoiseInvalidMessage("Data must be bytes and less or equal %d bytes in length" % MAXMSG)
         return nb.crypto_aead_chacha20poly1305_ietf_encrypt(pt, b"", self._nonce(), self.k)
 
     def dec(self, ct):
